@@ -828,6 +828,14 @@ fn d_instr(o: &mut String, i: &SemanticStackContext<Ins>, prog: &Main) {
             let Ins::Mark { tag, reg } = ins.as_ref();
             write!(o, "(Ext {tag} {reg})").unwrap();
         }
+        // an instruction kind added to the library after this harness was written: printed by
+        // its debug name (it disagrees with the model wherever it is emitted)
+        #[allow(unreachable_patterns)]
+        other => {
+            let dbg = format!("{other:?}");
+            let name = dbg.split(|c: char| !c.is_ascii_alphanumeric()).next().unwrap_or("");
+            write!(o, "(Unknown {name})").unwrap();
+        }
     }
 }
 
